@@ -545,7 +545,69 @@ def rule_budget_scope(ctx) -> None:
                   f"while the stage reports the sum and the orchestrator tests `consumed == budget` - the budget neither binds nor triggers BUDGET_{key.upper()}")
 
 
+def rule_budgets_reach_the_stages_as_they_read_them(ctx) -> None:
+    """"slice budgets clamp stage work": run_turn parks the slice's budgets on ctx.slice_budgets and the stages read them there.
+    Some readers copy a cap only where the object is a real dict (`isinstance(caps, dict)` in the T3 bundle); as long as one does,
+    what run_turn stores must BE a dict - wrapped in a read-only view (MappingProxyType) or any other mapping class the type
+    test fails, the stage falls back to its configured cap, exceeds the slice budget, and the `==` boundary test then also
+    misses the yield."""
+    rt = ctx.func(RUN_TURN)
+    attr = "slice_budgets"
+    gated = []
+    for f in ctx.prog.all_funcs("clematis.engine.stages."):
+        names = {t.id for x in walk_no_defs(f.node) if isinstance(x, ast.Assign) for t in x.targets if isinstance(t, ast.Name)
+                 and any(isinstance(y, ast.Call) and dotted(y.func) == "getattr" and len(y.args) >= 2 and const_str(y.args[1]) == attr for y in ast.walk(x.value))}
+        for x in walk_no_defs(f.node):
+            if isinstance(x, ast.Call) and dotted(x.func) == "isinstance" and len(x.args) == 2 and isinstance(x.args[0], ast.Name) and x.args[0].id in names and src(x.args[1]) in ("dict", "(dict,)"):
+                gated.append((f, x))
+    stores = [c for c in walk_no_defs(rt.node) if isinstance(c, ast.Call) and dotted(c.func) == "setattr" and len(c.args) == 3 and const_str(c.args[1]) == attr
+              and not (isinstance(c.args[2], ast.Constant) and c.args[2].value is None)]
+    ctx.floor("C17.CLAMP", "stores of ctx.slice_budgets in run_turn", len(stores), 1)
+    rd = ctx.rd(rt)
+    cfg = ctx.cfg(rt)
+
+    def dict_typed(e, at, depth=0) -> bool:
+        if isinstance(e, ast.Dict) or isinstance(e, ast.DictComp):
+            return True
+        if isinstance(e, ast.Call):
+            if dotted(e.func) == "dict":
+                return True
+            if isinstance(e.func, ast.Attribute) and e.func.attr == "copy" and not e.args:
+                return dict_typed(e.func.value, at, depth + 1)
+            r = ctx.prog.callee(rt, e)
+            if r and r[0] == "func" and r[1] in ctx.prog.funcs:
+                cal = ctx.prog.funcs[r[1]]
+                rets = [y for y in walk_no_defs(cal.node) if isinstance(y, ast.Return) and y.value is not None]
+                crd = ctx.rd(cal)
+                ccfg = ctx.cfg(cal)
+
+                def ret_ok(y):
+                    v = y.value
+                    if isinstance(v, (ast.Dict, ast.DictComp)) or (isinstance(v, ast.Call) and dotted(v.func) == "dict"):
+                        return True
+                    if isinstance(v, ast.Name):
+                        at2 = ccfg.node_containing(y)
+                        ds = [d for d in crd.reaching(v.id, at2[0]) if d.kind != "mutate"] if at2 else []
+                        return bool(ds) and all(d.value is not None and (isinstance(d.value, (ast.Dict, ast.DictComp)) or (isinstance(d.value, ast.Call) and dotted(d.value.func) == "dict")) for d in ds)
+                    return False
+                return bool(rets) and all(ret_ok(y) for y in rets)
+            return False
+        if isinstance(e, ast.Name) and depth < 3:
+            ds = [d for d in rd.reaching(e.id, at) if d.kind != "mutate"]
+            return bool(ds) and all(d.value is not None and dict_typed(d.value, d.node, depth + 1) for d in ds)
+        return False
+
+    for c in stores:
+        at = cfg.node_containing(c)
+        ok = (not gated) or (bool(at) and dict_typed(c.args[2], at[0]))
+        g = gated[0] if gated else None
+        ctx.check(ok, "C17.CLAMP", ctx.okey(f"{rt.qual}/slice-budgets-stored-as-the-type-the-stages-test"), rt.loc(c), "ctx.slice_budgets holds a plain dict (readers gate on isinstance(..., dict))",
+                  f"`{src(c)[:70]}` stores something that is not known to be a dict, while {g[0].qual if g else ''} copies its cap only where `{src(g[1]) if g else ''}`: the slice cap does not reach that stage, "
+                  "which plans / works up to its configured cap - beyond the slice budget - and the `==` boundary test then misses the yield as well")
+
+
 def run(ctx) -> None:
+    rule_budgets_reach_the_stages_as_they_read_them(ctx)
     rule_budget_scope(ctx)
     rule_zero_budget(ctx)
     rule_pure(ctx)
